@@ -96,6 +96,29 @@ func vdrCase(c *Ctx, focus string) {
 	swarmSched(c.Plan, cfg)
 	// the detached cleanup goroutines are "aux" tasks: vary their priority strongly
 	cfg.WAux = []int{1, 1, 30, 100}[c.Plan.Draw(4)]
+	if c.Plan.Draw(5) == 0 {
+		// --overrides: volatility forced on or off for single stages or whole
+		// sub-pipelines, resources replaced per phase
+		stages, pipes := stageNodes(prog)
+		ov := map[string]map[string]interface{}{}
+		for i := 0; i < 1+c.Plan.Draw(3); i++ {
+			all := append(append([]string{}, stages...), pipes...)
+			n := all[c.Plan.Draw(len(all))]
+			if ov[n] == nil {
+				ov[n] = map[string]interface{}{}
+			}
+			switch c.Plan.Draw(3) {
+			case 0:
+				ov[n]["force_volatile"] = true
+			case 1:
+				ov[n]["force_volatile"] = false
+			default:
+				ov[n][[]string{"chunk.threads", "join.mem_gb", "split.threads", "chunk.mem_gb"}[c.Plan.Draw(4)]] = []float64{1, 2, 0.5, 3}[c.Plan.Draw(4)]
+			}
+		}
+		cfg.Overrides = ov
+		c.Res.Probes["runs-with-overrides"]++
+	}
 	interrupted := false
 	if focus == "C14" && c.Plan.Draw(3) == 0 {
 		interrupted = true
@@ -302,7 +325,11 @@ func vdrCase(c *Ctx, focus string) {
 			}
 			continue
 		}
-		if in.Stage.Split && rec.Job.Phase == "main" {
+		fv, fvSet := r.forceVolatile(in.Node)
+		if fvSet {
+			c.Res.Probes["files-of-stages-with-volatility-override"]++
+		}
+		if in.Stage.Split && rec.Job.Phase == "main" && !(fvSet && !fv) {
 			c.Res.Probes["chunk-files-of-split-stage"]++
 			if exists(p) && !undeletable(p) {
 				add("C14", "chunk-file-left", "chunk-level file of a splitting stage survives completion: "+rel)
@@ -311,6 +338,12 @@ func vdrCase(c *Ctx, focus string) {
 		}
 		vol := (in.Call != nil && in.Call.Volatile) || in.Stage.Volatile == "strict" ||
 			(mode == "strict" && in.Stage.Volatile != "false")
+		if fvSet {
+			vol = fv
+		}
+		if in.Stage.Split && rec.Job.Phase == "main" {
+			continue // chunk files of a stage whose volatility is forced off: may stay
+		}
 		if !vol {
 			continue
 		}
